@@ -553,13 +553,30 @@ def _parser_table(F, R, fn, step, has_dot, tier_full):
     nb, nt = nxt
     sw = nt["target"]
     dest = nt["dest"]["l"]
-    names = {l["name"]: i for i, l in enumerate(fn.locals) if l["name"]}
+    # parser state, identified structurally: locals initialised before the loop; idx: usize updated in the loop;
+    # seen_dot: bool updated in the loop; sfn: the local of the name type that is built before the loop
+    loops = [(h, body) for (h, body, backs) in fn.loops() if nb in body]
+    body = max(loops, key=lambda x: len(x[1]))[1] if loops else set()
+    before = fn.reach([0], cut_blocks=[nb])
+    adt = "filesystem::filename::ShortFileName" if has_dot else "fat::volume::VolumeName"
+    names = {}
+    for i, l in enumerate(fn.locals):
+        ds = fn.defs().get(i, [])
+        init = any(d[0] == "assign" and d[1] in before and d[1] not in body for d in ds)
+        upd = any(d[1] in body for d in ds)
+        if not init or i == 0:
+            continue
+        if l["ty"] == "usize" and upd and l["name"]:
+            names.setdefault("idx", i)
+        elif l["ty"] == "bool" and upd and l["name"]:
+            names.setdefault("seen_dot", i)
+        elif l["ty"] == adt and l["name"]:
+            names.setdefault("sfn", i)
     need = ["idx", "sfn"] + (["seen_dot"] if has_dot else [])
     for n in need:
         if n not in names:
-            R.bad(fn, "locals", "parser state variable `%s` not found" % n, kind="anchor-missing")
+            R.bad(fn, "locals", "parser state variable for `%s` not found" % n, kind="anchor-missing")
             return
-    adt = "filesystem::filename::ShortFileName" if has_dot else "fat::volume::VolumeName"
     fe = F.variants("filesystem::filename::FilenameError")
     reps = list(range(0, 0x101)) + [0x141, 0x4E2D, 0x1F600, 0x10FFFF]
     idxs = range(0, 12) if tier_full else (0, 1, 7, 8, 9, 10, 11)
